@@ -7,3 +7,4 @@ INVARIANT NeverTwiceNeverForeign
 INVARIANT ChunkPrefix
 INVARIANT ChunkLengths
 INVARIANT ObsConforms
+INVARIANT ObsConformsX
